@@ -20,6 +20,7 @@ spectral frequencies* and K from the *gain*:
 Not decided: the MGLSA filter sections (mglsa.rs), the warped frequency axis, the 0.001 neper law,
 decay for well-separated frequencies.
 """
+from fractions import Fraction
 from ..expr import ExprBuilder, show, stores, walk, to_poly, Poly
 from ..loops import LoopSyms, loop_var_parts
 from .. import paths
@@ -69,6 +70,96 @@ def _coef_vector(p, b, e):
         if _tail_from(sb[2][0], k):
             return k
     return -1
+
+
+def r5_stability(ctx, p):
+    """R5: the frequencies the filter realises are the given ones unless two of them (or an edge)
+    are closer than pi / (4 * len) = pi / (4 (m+1)): every store of check_lsp_stability sits behind a
+    comparison against exactly that minimum, so a set that is separated by at least it is not
+    touched"""
+    import math
+    ctx.rule("C13-R5", "check_lsp_stability leaves well-separated frequencies alone: every store is dominated by `gap < MIN`, `w1 < MIN` or `w_last > PI - MIN` with MIN = 0.25*PI/len; the stored values are w -/+ (MIN - gap)/2, MIN and PI - MIN; it is called on the LSP branch only")
+    b = cm.body_or_fail(ctx, p, "C13-R5", LSP + "check_lsp_stability")
+    if b is None:
+        return
+    eb = ExprBuilder(b)
+    LENF = ("sym", "LENF")
+
+    def atomize(e):
+        if e[0] == "cast" and e[2][0] == "len" and _is_self(e[2][1]):
+            return LENF
+        return None
+
+    def is_min(e):
+        pol = to_poly(e, atomize)
+        if len(pol.t) != 1:
+            return False
+        (mono, c), = pol.t.items()
+        return dict(mono) == {LENF: -1} and abs(float(c) - math.pi / 4) <= 1e-15
+
+    def is_pi_minus_min(e):
+        pol = to_poly(e, atomize)
+        if len(pol.t) != 2:
+            return False
+        got = {tuple(sorted(dict(m).items())): float(c) for m, c in pol.t.items()}
+        return abs(got.get((), 0) - math.pi) <= 1e-15 and abs(got.get(((LENF, -1),), 0) + math.pi / 4) <= 1e-15
+    sts = [x for x in stores(b, eb) if x[4][0] == "arg" and x[4][1] == 1]
+    ctx.anchor("C13-R5", "stores to the frequencies in check_lsp_stability", len(sts), 4, b.loc())
+    for bb, i, st, tgt, root, chain, val in sts:
+        why = None
+        for g in paths.guards(b, bb, eb):
+            if g[0] not in ("true", "false"):
+                continue
+            pos, c = paths.bool_atoms(g)
+            if c[0] != "bin" or c[1] not in ("Lt", "Le", "Gt", "Ge"):
+                continue
+            lo, hi = (c[2], c[3]) if c[1] in ("Lt", "Le") else (c[3], c[2])
+            if not pos:
+                lo, hi = hi, lo      # !(a < b)  ==  b <= a
+            # now the edge says lo < hi (or <=)
+            if is_min(hi):
+                why = "%s below MIN" % show(lo)[-60:]
+                guard = ("min", lo, hi)
+            elif is_pi_minus_min(lo):
+                why = "%s above PI - MIN" % show(hi)[-60:]
+                guard = ("max", hi, lo)
+        if why:
+            ctx.ok("C13-R5", "store to %s only when %s (MIN = 0.25*PI/len)" % (show(tgt)[-50:], why), cm.loc_of(st["span"]))
+            # the repaired value
+            kind, x, bound = guard
+            T = to_poly(tgt, atomize)
+            V = to_poly(val, atomize)
+            X = to_poly(x, atomize)
+            B = to_poly(bound, atomize)
+            half = Poly.const(Fraction(1, 2))
+            okv = False
+            if X == T:
+                okv = V == B                       # w1 <- MIN, w_last <- PI - MIN
+                form = "the bound itself"
+            elif kind == "min":
+                # x is the gap U - L between two neighbours; the target is one of them
+                if len(T.t) == 1 and X.t.get(next(iter(T.t))) == -1:
+                    okv = V == T - half * (B - X)  # lower neighbour moves down by (MIN - gap)/2
+                    form = "lower neighbour - (MIN - gap)/2"
+                elif len(T.t) == 1 and X.t.get(next(iter(T.t))) == 1:
+                    okv = V == T + half * (B - X)  # upper neighbour moves up by (MIN - gap)/2
+                    form = "upper neighbour + (MIN - gap)/2"
+            if okv:
+                ctx.ok("C13-R5", "repaired value of %s is %s" % (show(tgt)[-40:], form), cm.loc_of(st["span"]))
+            else:
+                ctx.fail("C13-R5", b.path, "repaired value", "the repair stores %s into %s; expected MIN / PI - MIN at the edges and -/+ (MIN - gap)/2 for a close pair" % (show(val)[:160], show(tgt)[-60:]), cm.loc_of(st["span"]))
+        else:
+            ctx.fail("C13-R5", b.path, "unguarded repair", "the frequency %s is rewritten without a dominating comparison against MIN = 0.25*PI/len (pi/(4(m+1))): frequencies that are at least that far apart would be moved, and the filter would realise a different A(z) than the one given" % show(tgt)[-80:], cm.loc_of(st["span"]))
+    # the call site: only on the LSP (stage >= 1) branch, before lsp2mgc
+    vs = p.body("vocoder::Vocoder::synthesize")
+    if vs is not None:
+        calls = cm.local_calls(vs, p, exact=LSP + "check_lsp_stability")
+        conv = cm.local_calls(vs, p, exact=LSP + "lsp2mgc")
+        dom = vs.dominators()
+        if len(calls) == 1 and any(calls[0][0] in dom.get(cb_, ()) for cb_, _ in conv):
+            ctx.ok("C13-R5", "check_lsp_stability is called once, before the per-frame lsp2mgc", cm.loc_of(calls[0][1]["span"]))
+        else:
+            ctx.fail("C13-R5", vs.path, "call site", "check_lsp_stability is called %d times / not before lsp2mgc" % len(calls), vs.loc())
 
 
 def run(ctx):
@@ -343,6 +434,7 @@ def run(ctx):
             else:
                 ctx.fail("C13-R4", vs.path, "constructor arguments", "LineSpectralPairs::new receives %s" % a, cm.loc_of(t["span"]))
     ctx.note("not decided: the MGLSA filter sections (mglsa.rs), frequency warping, the 0.001 neper law, decay for well-separated frequencies (numerical)")
+    r5_stability(ctx, p)
     expl = ("Structural clauses of the LSP -> LPC -> MGC conversion: role separation of gain and line spectral frequencies and the order "
             "(the defect of the pinned tree), the second-order-section recursion as index polynomials, the gain / stage scaling / conversion "
             "call, and the stage-gamma plumbing. Necessary conditions of C13; the magnitude-response identity itself is numerical.")
